@@ -115,8 +115,8 @@ def run_kani(ctx, unit, harness=(), flags=(), rustflags=None, jobs=16, harness_t
                         checks=len(checks), failed=len(real_fail), covers=len(covers),
                         covers_unsatisfied=len(unsat_cov),
                         contract=(meta.get(hid, {}).get('contract') or {}).get('contracted_function_name'),
-                        solver_s=stats.get(hid, {}).get('runtime_solver_s'),
-                        vccs=stats.get(hid, {}).get('vccs_generated')))
+                        solver_s=(stats.get(hid) or {}).get('runtime_solver_s'),
+                        vccs=(stats.get(hid) or {}).get('vccs_generated')))
         ctx.obligations += 1
         if real_fail:
             failing.append((hid, real_fail))
